@@ -63,7 +63,30 @@ pub fn alphabet() -> Vec<Build> {
         // nested conditions left open (fails) and a well-formed nest
         Build::Str("if-unclosed", ".if 1\n.if 1\nnop\n"),
         Build::Str("if-nested-ok", ".if 1\n.if 0\nnop\n.else\nldi r25, 1\n.endif\n.endif\n"),
+        // the same macro, letter for letter and line for line, whose body reads a symbol that
+        // differs between the builds
+        Build::Str("macro-reads-equ-1", ".equ SEL_K = 1\n.macro pick\n.if SEL_K\nldi r16, 1\n.else\nldi r16, 2\n.endif\n.endm\npick\npick\n"),
+        Build::Str("macro-reads-equ-0", ".equ SEL_K = 0\n.macro pick\n.if SEL_K\nldi r16, 1\n.else\nldi r16, 2\n.endif\n.endm\npick\npick\n"),
+        Build::Str("macro-reads-flag-set", ".define PICK_F\n.macro pick\n.ifdef PICK_F\nldi r17, 1\n.else\nldi r17, 2\n.endif\n.endm\npick\n"),
+        Build::Str("macro-reads-flag-unset", "; no flag here\n.macro pick\n.ifdef PICK_F\nldi r17, 1\n.else\nldi r17, 2\n.endif\n.endm\npick\n"),
+        // failing builds with several equally good candidates for whatever the error text says
+        Build::Str("undefined-macro-between-two-similar", ".macro wait_us\nnop\n.endm\n.macro wait_ms\nnop\nnop\n.endm\n.macro wait_xs\nnop\n.endm\nwait_ns\n"),
+        Build::Str("undefined-symbol-between-similar", ".equ val_a = 1\n.equ val_b = 2\n.set val_d = 4\nval_e: nop\n.def val_f = r16\nldi r16, val_c + val_g\n"),
+        Build::Str("many-names-then-failure", many_names()),
     ]
+}
+
+fn many_names() -> &'static str {
+    static S: std::sync::OnceLock<String> = std::sync::OnceLock::new();
+    S.get_or_init(|| {
+        let mut s = String::new();
+        for i in 0..12 {
+            s.push_str(&format!(".equ mn_k{} = {}\n.set mn_s{} = {}\n.def mn_r{} = r{}\nmn_l{}: nop\n.macro mn_m{}\nnop\n.endm\n.define MN_F{}\n", i, i, i, i, i, 16 + i, i, i, i));
+        }
+        s.push_str("mn_l5: nop\nmn_m99\nldi r16, mn_k99\n");
+        s
+    })
+    .as_str()
 }
 
 fn fill_a() -> &'static str {
@@ -150,13 +173,18 @@ pub fn run(tier: Tier) -> i32 {
 
     // 1. histories on one thread: every sequence of length <= k
     let k = if tier.thorough() { 4 } else { 3 };
+    // the longest histories run over the first 27 builds (thorough: length 4 over those, 3 over all)
+    let core = 27usize.min(n);
     let mut seqs: Vec<Vec<usize>> = vec![];
     {
         let mut frontier: Vec<Vec<usize>> = vec![vec![]];
-        for _ in 0..k {
+        for len in 1..=k {
             let mut next = vec![];
             for s in &frontier {
                 for b in 0..n {
+                    if len == k && (b >= core || s.iter().any(|x| *x >= core)) {
+                        continue;
+                    }
                     let mut t = s.clone();
                     t.push(b);
                     next.push(t);
